@@ -234,6 +234,85 @@ void Built::destroy() {
     ext.clear();
 }
 
+static model::MLib single_path_lib(const model::MLib& m, const model::MPath& p) {
+    model::MLib one;
+    one.name = "ONE";
+    one.unit = m.unit;
+    one.precision = m.precision;
+    model::MCell c;
+    c.name = "C";
+    c.paths.push_back(p);
+    one.cells.push_back(c);
+    return one;
+}
+
+std::vector<std::vector<canon::IPt>> path_outline(const model::MLib& m, const model::MPath& p, uint64_t* max_raw_vertices) {
+    if (max_raw_vertices) *max_raw_vertices = 0;
+    std::vector<std::vector<canon::IPt>> out;
+    Built b = build(single_path_lib(m, p));
+    Cell* c = b.lib.cell_array[0];
+    Array<Polygon*> polys = {};
+    Repetition* rep = NULL;
+    if (c->flexpath_array.count) {
+        c->flexpath_array[0]->to_polygons(false, 0, polys);
+        rep = &c->flexpath_array[0]->repetition;
+    } else if (c->robustpath_array.count) {
+        c->robustpath_array[0]->to_polygons(false, 0, polys);
+        rep = &c->robustpath_array[0]->repetition;
+    }
+    double scaling = m.unit / m.precision;
+    for (uint64_t i = 0; i < polys.count; i++) {
+        Polygon* poly = polys[i];
+        if (max_raw_vertices && poly->point_array.count > *max_raw_vertices) *max_raw_vertices = poly->point_array.count;
+        // to_polygons hands the path's repetition to every polygon; the writer expands it
+        std::vector<Vec2> offs;
+        Array<Vec2> o = {};
+        if (poly->repetition.type != RepetitionType::None) {
+            poly->repetition.get_offsets(o);
+            for (uint64_t k = 0; k < o.count; k++) offs.push_back(o[k]);
+            o.clear();
+        } else {
+            offs.push_back(Vec2{0, 0});
+        }
+        for (auto& off : offs) {
+            std::vector<canon::IPt> pts;
+            for (uint64_t k = 0; k < poly->point_array.count; k++)
+                pts.push_back(canon::IPt{(int64_t)lround((off.x + poly->point_array[k].x) * scaling),
+                                         (int64_t)lround((off.y + poly->point_array[k].y) * scaling)});
+            canon::dedup(pts, true);
+            if (pts.size() >= 3) out.push_back(pts);
+        }
+        poly->clear();
+        free_allocation(poly);
+    }
+    (void)rep;
+    polys.clear();
+    b.destroy();
+    return out;
+}
+
+std::vector<std::vector<canon::IPt>> robust_centres(const model::MLib& m, const model::MPath& p) {
+    std::vector<std::vector<canon::IPt>> out;
+    Built b = build(single_path_lib(m, p));
+    Cell* c = b.lib.cell_array[0];
+    if (c->robustpath_array.count) {
+        RobustPath* rp = c->robustpath_array[0];
+        Array<Vec2> pts = {};
+        rp->element_center(rp->elements, pts);
+        double scaling = m.unit / m.precision;
+        for (auto& off : canon::rep_offsets(p.rep)) {
+            double ox = user(m, off.x), oy = user(m, off.y);
+            std::vector<canon::IPt> v;
+            for (uint64_t k = 0; k < pts.count; k++)
+                v.push_back(canon::IPt{(int64_t)lround((pts[k].x + ox) * scaling), (int64_t)lround((pts[k].y + oy) * scaling)});
+            out.push_back(v);
+        }
+        pts.clear();
+    }
+    b.destroy();
+    return out;
+}
+
 // ---------------------------------------------------------------- extract
 std::vector<model::MProp> props_to_model(const Property* p) {
     std::vector<model::MProp> r;
@@ -375,6 +454,7 @@ canon::CLib extract(const Library& lib, const ExtractOptions& opt) {
             std::vector<canon::IPt> sp;
             for (uint64_t k = 0; k < p->spine.point_array.count; k++)
                 sp.push_back(G.g(p->spine.point_array[k]));
+            cc.close_path_vertices += canon::close_pairs(sp);
             double hw = el->half_width_and_offset.count ? el->half_width_and_offset[0].u : 0;
             int64_t w2 = G.g(2 * hw);
             bool ok;
